@@ -8,6 +8,8 @@ def gen_exec(r, tier):
     ops = []
     for _ in range(1 if tier == "quick" else 8):
         ops += streams_exec.gen_exec(r, 52)
+        # bare command names, looked up in $PATH, called from several goroutines at once
+        ops += ["#case ex barepar"] + [f"ex.barepar names={r.pick([32, 48])} workers={r.pick([6, 8])} rounds=3" for _ in range(3)]
     return ops
 
 
@@ -54,6 +56,11 @@ class C19(Prop):
                 if op.startswith("ex.statrace"):
                     if g.strip() != "panics=0":
                         out.append(viol(f"a call panicked while the executable was being swapped for a symlink loop: {op} -> {g}", [cops[0], op], [cgo[0], g]))
+                    continue
+                if op.startswith("ex.barepar"):
+                    if g.strip() != "ok fails=0 panics=0":
+                        out.append(viol(f"commands configured as bare names, called from several goroutines at once: not every call came back with "
+                                        f"its command's output: {op} -> {g}", [cops[0], op], [cgo[0], g]))
                     continue
                 if op.startswith("ex.busyhold"):
                     r = kv(g)
